@@ -2001,6 +2001,15 @@ class KmipEngine(object):
             )
         managed_object.names = []
 
+        # The data store keeps the prime field size of a split key in a
+        # signed 64-bit column; a larger value cannot be stored.
+        prime_field_size = getattr(managed_object, 'prime_field_size', None)
+        if prime_field_size is not None:
+            if not (-(2 ** 63) <= prime_field_size < 2 ** 63):
+                raise exceptions.InvalidField(
+                    "The prime field size is too large to be stored."
+                )
+
         self._set_attributes_on_managed_object(
             managed_object,
             object_attributes
